@@ -60,6 +60,7 @@ def vt(x):
 
 
 class DateTimeTwin(Sub):
+    ambient = True
     name = "datetime_twin"
     n = {"quick": 12000, "thorough": 250000}
     shards = {"quick": 4, "thorough": 8}
@@ -132,6 +133,7 @@ def outcome(f):
 
 
 class NaiveTwin(Sub):
+    ambient = True
     name = "naive_twin"
     backends = ("py",)
     n = {"quick": 5000, "thorough": 100000}
@@ -201,6 +203,7 @@ class NaiveTwin(Sub):
 
 
 class Constructors(Sub):
+    ambient = True
     name = "constructors_types"
     backends = ("py",)
     n = {"quick": 5000, "thorough": 100000}
@@ -240,6 +243,7 @@ class Constructors(Sub):
 
 
 class DateTimeOfDay(Sub):
+    ambient = True
     name = "date_and_time"
     backends = ("py",)
     n = {"quick": 8000, "thorough": 150000}
